@@ -25,7 +25,8 @@ RULE = ("Real client and server stacks exchange a ConfirmedPrivateTransfer over 
         "the old one; segmented-response-accepted in a later request means it can receive segments): every request APDU to a known "
         "address is within its max-APDU, segmented only if it can receive segments, else a local abort. Non-trivial: a configuration in "
         "which some limit is binding (segmentation needed, or payload within 8 octets of a limit). Distinct by configuration."
-        " Also: a requester that changes the window from ack to ack; only segment 0 before the first ack; retransmissions judged against what the peer has announced by then; the application's maxNpduLength.")
+        " Also: a requester that changes the window from ack to ack; only segment 0 before the first ack; retransmissions judged against what the peer has announced by then; the application's maxNpduLength."
+        " The window field of every later segment never exceeds the receiver's grant, incl. transfers that wrap the sequence number. One reduced copy of a generated shard runs with the library's debug tracing switched on (label tracing-on).")
 ASSUMPTIONS = [
     "APDU length = octets after the NPCI as decoded by bpverif/ref/npci.py (fixed header included, as the standard defines max-APDU-length-accepted)",
     "without I-Am knowledge the requester cannot know the peer's limits: only the window clauses and the response-side clauses are judged for requests then",
